@@ -93,7 +93,7 @@ impl BlockEntry {
 }
 
 /// Block table
-#[derive(Debug)]
+#[derive(Debug, Clone)]
 pub struct BlockTable {
     entries: Vec<BlockEntry>,
 }
